@@ -1,9 +1,9 @@
 (* C18 — addresses parse, print, compare and hash coherently in every notation.
-   Property theorems only; proofs live in Bac.AddrFacts / AddrParse / AddrOld / AddrEntry / AddrIp.
+   Property theorems only; proofs live in Bac.AddrFacts / AddrParse / AddrOld / AddrEntry / AddrIp / AddrWild.
    Texts are lists of character codes: 42 '*', 46 '.', 47 '/', 58 ':', 64 '@', "0x" = 48 120,
    "X'" = 88 39.  `digits s` = s matches \d+; `dec_val s` = int(s); `hex_pairs h` = h matches
    (HH)+; `unhex h` = the octets those pairs spell; `decode_str` = Address(<str>). *)
-From Bac Require Import Base Addr AddrFacts AddrParse AddrOld AddrEntry AddrIp.
+From Bac Require Import Base Addr AddrFacts AddrParse AddrOld AddrEntry AddrIp AddrWild.
 Open Scope N_scope.
 
 (* ---------------------------------------------------------------- what each notation denotes *)
@@ -136,6 +136,66 @@ Theorem C18_denotation_tuple : forall a b c d a' b' c' d' port,
     key x = (ALocalStation, None, Some ([a'; b'; c'; d'] ++ be2 (Z.to_N port))) /\ route x = None.
 Proof. exact tuple_denotation. Qed.
 Print Assumptions C18_denotation_tuple.
+
+(* ---------------------------------------------------------------- the wildcard tests and the argument's type *)
+(* `addr == "*"` / `addr == "*:*"` at the head of decode_address are reached by EVERY argument type.
+   An argument denotes the route-free local (global) broadcast only if it is the text "*" ("*:*"),
+   optionally followed by the one newline `$` tolerates, or an Address object that == that broadcast —
+   no int, no octet string (not 0x2A, not 0x2A 0x3A 0x2A), no (host, port) tuple does *)
+Theorem C18_broadcast_arguments : forall a x, decode_address a = Ok x -> route x = None ->
+  (ty x = ALocalBroadcast -> is_wild_text [42] a \/ exists y, a = AAddr y /\ key y = key bcast_local) /\
+  (ty x = AGlobalBroadcast -> is_wild_text [42; 58; 42] a \/ exists y, a = AAddr y /\ key y = key bcast_global).
+Proof. exact broadcast_arguments. Qed.
+Print Assumptions C18_broadcast_arguments.
+
+(* ... and those arguments are accepted as such *)
+Theorem C18_wildcard_texts_accepted :
+  decode_address (AStr [42]) = Ok bcast_local /\ decode_address (AStr [42; 10]) = Ok bcast_local /\
+  decode_address (AStr [42; 58; 42]) = Ok bcast_global /\ decode_address (AStr [42; 58; 42; 10]) = Ok bcast_global.
+Proof. exact wild_texts_accepted. Qed.
+Print Assumptions C18_wildcard_texts_accepted.
+
+(* an int, an octet string or a tuple that is accepted is a route-free local station *)
+Theorem C18_non_text_is_station : forall a x, non_text a = true -> decode_address a = Ok x ->
+  ty x = ALocalStation /\ net x = None /\ route x = None /\ exists m, mac x = Some m.
+Proof. exact non_text_station. Qed.
+Print Assumptions C18_non_text_is_station.
+
+(* raw octets, whatever they spell in ASCII, are the station with exactly those octets: Address(octets) ... *)
+Theorem C18_octets_are_octets : forall l x, decode_address (ABytes l) = Ok x ->
+  key x = (ALocalStation, None, Some l) /\ route x = None.
+Proof. exact octets_key. Qed.
+Print Assumptions C18_octets_are_octets.
+(* ... and Address(net, octets) *)
+Theorem C18_net_octets_are_octets : forall n l, (0 <= n < 65535)%Z ->
+  exists x, address2 n (ABytes l) = Ok x /\ key x = (ARemoteStation, Some n, Some l) /\ route x = None.
+Proof. exact octets_key2. Qed.
+Print Assumptions C18_net_octets_are_octets.
+
+(* an Address object as constructor argument (not a notation of the statement; behaviour recorded): accepted
+   only when it == a broadcast, the result is that broadcast without route and == the argument; every
+   other Address object is a TypeError *)
+Theorem C18_address_object_argument : forall y x, decode_address (AAddr y) = Ok x ->
+  (x = bcast_local \/ x = bcast_global) /\ key y = key x /\ eqb y x = true.
+Proof. exact addr_object. Qed.
+Print Assumptions C18_address_object_argument.
+Theorem C18_address_object_refused : forall y, ty y <> ALocalBroadcast -> ty y <> AGlobalBroadcast ->
+  decode_address (AAddr y) = Err TypeErr.
+Proof. exact addr_object_refused. Qed.
+Print Assumptions C18_address_object_refused.
+Theorem C18_address_object_accepted : forall y,
+  (key y = key bcast_local -> decode_address (AAddr y) = Ok bcast_local) /\
+  (key y = key bcast_global -> decode_address (AAddr y) = Ok bcast_global).
+Proof. exact wild_objects_accepted. Qed.
+Print Assumptions C18_address_object_accepted.
+
+(* constructing an address after other addresses were built (and modified) in the same process gives
+   what the constructor gives on its own: the model has no module-level state; the correspondence
+   (process-history cases on never-seen texts) ties this to the code *)
+Theorem C18_construction_history_independent : forall e e' r,
+  built_after e r = built_after e' r /\ built_after e r = r.
+Proof. exact built_after_independent. Qed.
+Print Assumptions C18_construction_history_independent.
 
 (* ---------------------------------------------------------------- refusals *)
 (* network numbers above 65534: any "<net>:<...>" text the combined pattern accepts ... *)
@@ -271,4 +331,15 @@ Example C18_ex_refusals :
   decode_str [54;53;53;51;53;58;53] = Err ValueErr /\ decode_str [50;53;54] = Err ValueErr /\
   address2 70000 (AInt 5) = Err ValueErr /\ decode_str [42;58;53] = Err ValueErr /\
   decode_str [49;46;50;46;51;46;52;58;55;48;48;48;48] = Err ValueErr.
+Proof. vm_compute. repeat split. Qed.
+
+(* b"*" and b"*:*" are the stations 0x2A and 0x2A3A2A (printed "42" and "0x2a3a2a"), Address(9, b"*") is 9:42 *)
+Example C18_ex_octets_not_wildcards :
+  decode_address (ABytes [42]) = Ok (station [42]) /\
+  decode_address (ABytes [42; 58; 42]) = Ok (station [42; 58; 42]) /\
+  address2 9 (ABytes [42]) = Ok (mkAddr ARemoteStation (Some 9%Z) (Some [42]) None None) /\
+  (do a <- decode_address (ABytes [42; 58; 42]); print a) = Ok [48; 120; 50; 97; 51; 97; 50; 97] /\
+  decode_address (AAddr (mkAddr ALocalBroadcast None None (Some [9]) None)) = Ok bcast_local /\
+  decode_address (AAddr (station [42])) = Err TypeErr /\
+  decode_address (AStr [32; 42]) = Err ValueErr /\ decode_address (AStr [42; 32]) = Err ValueErr.
 Proof. vm_compute. repeat split. Qed.
